@@ -16,7 +16,7 @@ from .ast import is_log_block, walk
 from .flat import Config, Run, explore, run_body, show, showv, Unsupported, NeedChoice, is_unk
 from . import machine as mc
 
-MAX_PATHS = 1500
+MAX_PATHS = 8000
 
 
 def fn_key(it):
@@ -37,7 +37,13 @@ def nf_function(it, extra_guards=(), int_like=(), inline=None, consts=None):
     cfg = Config(acquire={}, primitives=set(), inline=dict(inline or {}), guards=set(extra_guards), samples=[], accessors=set(), full_call_text=True, generic_loops=True, consts=consts or {})
     cfg.objects = ("self",)
     try:
-        cells = tabulate_generic(it, cfg, classes, has_char_param)
+        try:
+            cells = tabulate_generic(it, cfg, classes, has_char_param)
+        except Unsupported as e:
+            if not (has_char_param and "partition" in str(e)):
+                raise
+            # the character is only converted / compared as a number: treat it as an opaque value
+            cells = tabulate_generic(it, cfg, [(0, 0x10FFFF)], False)
         return ("paths", mc.project_fn(cells))
     except Unsupported as e:
         return ("tree", tree_form(it), str(e))
@@ -403,7 +409,7 @@ def _helper_key(table, fkey, name):
     return hits[0] if len(hits) == 1 else None
 
 
-def compare_area(ref, new, report_ok, report_bad, summ=None):
+def compare_area(ref, new, report_ok, report_bad, summ=None, full_ref=None, full_new=None):
     """summ: effect summaries of the crate (lib/effects.py); when given, the actions of every path on both sides are put
     into the canonical order of independent effects before they are compared"""
     from . import effects
@@ -455,7 +461,7 @@ def compare_area(ref, new, report_ok, report_bad, summ=None):
             done = False
             for hn in sorted(ra | rb):
                 sides = []
-                for cur, table in ((ca, ref), (cb, new)):
+                for cur, table in ((ca, full_ref or ref), (cb, full_new or new)):
                     hk = _helper_key(table, key, hn)
                     if hk is None or hk == key:
                         sides.append(cur if not any(a in ("self." + hn, "call " + hn, "call Self::" + hn) for pc in cur for a, _ in pc["actions"]) else None)
